@@ -15,7 +15,8 @@ mod vk_iter {
             push(E { loc: 9, kind: 4, arg: 0, ret: match r { Some(x) => x.wrapping_add(1), None => 0 }, ord: 0 });
             r
         }
-        fn size_hint(&self) -> (usize, Option<usize>) { (self.len - self.k, Some(self.len - self.k)) }
+        // every other use of the wrapped iterator's state is an access to the same non-atomic shared object
+        fn size_hint(&self) -> (usize, Option<usize>) { push(E { loc: 9, kind: 9, arg: 0, ret: 0, ord: 0 }); (self.len - self.k, Some(self.len - self.k)) }
     }
 
     fn mk() -> (ConIterOfIter<usize, Probe>, usize, usize) {
@@ -27,6 +28,8 @@ mod vk_iter {
     // addresses of the three atomics (taken once the iterator has reached its final place)
     fn locs(it: &ConIterOfIter<usize, Probe>) {
         let s = st();
+        // the constructor reads the size hint (single-threaded, before the iterator is shared): start the log afresh
+        s.n = 0; s.nw = 0; s.nl = 0;
         s.loc_r = &it.reserved_counter as *const AtomicCounter as usize;
         s.loc_y = &it.yielded_counter as *const AtomicCounter as usize;
         s.loc_c = &it.completed as *const AtomicBool as usize;
@@ -57,6 +60,8 @@ mod vk_iter {
                 if e.loc == 3 && e.kind == 5 && e.ret == 1 { flag_true_seen = true; }
                 if e.loc == 9 {
                     assert!(admitted && !published, "[C07 C01 iter-exclusive] the wrapped iterator is used only between admission (yielded == ticket) and publication");
+                }
+                if e.loc == 9 && e.kind == 4 {
                     if e.ret != 0 { assert!(!ended, "[C01 iter-fused] no item after the wrapped iterator ended (A6)"); items += 1; } else { ended = true; }
                 }
                 if e.loc == 2 && e.kind == 1 {
@@ -81,7 +86,7 @@ mod vk_iter {
         (b, admitted, items, ended)
     }
 
-    // @harness name=iter_next props=C01,C02,C04,C05,C06,C07,C09,C11 kind=bounded bound="fruitless polls <= 2; ticket, yielded, iterator position over the full usize domain"
+    // @harness name=iter_next group=default,nodebug props_nodebug=C17 props=C01,C02,C04,C05,C06,C07,C09,C11 kind=bounded bound="fruitless polls <= 2; ticket, yielded, iterator position over the full usize domain"
     #[kani::proof]
     #[kani::unwind(18)]
     #[kani::stub(std::sync::atomic::Atomic::<usize>::fetch_add, a_faa)]
@@ -111,7 +116,7 @@ mod vk_iter {
         let _ = len;
     }
 
-    // @harness name=iter_chunk props=C01,C02,C03,C04,C05,C06,C07,C09,C11,C16 kind=bounded bound="chunk size <= 2; fruitless polls <= 2; ticket, yielded, iterator position over the full usize domain"
+    // @harness name=iter_chunk group=default,nodebug props_nodebug=C17 props=C01,C02,C03,C04,C05,C06,C07,C09,C11,C16 kind=bounded bound="chunk size <= 2; fruitless polls <= 2; ticket, yielded, iterator position over the full usize domain"
     #[kani::proof]
     #[kani::unwind(18)]
     #[kani::stub(std::sync::atomic::Atomic::<usize>::fetch_add, a_faa)]
@@ -227,7 +232,7 @@ mod vk_iter {
         }
     }
 
-    // @harness name=iter_buffered props=C01,C02,C03,C07,C09 kind=bounded bound="chunk size == 2; fruitless polls <= 2"
+    // @harness name=iter_buffered group=default,nodebug props_nodebug=C17 props=C01,C02,C03,C07,C09 kind=bounded bound="chunk size == 2; fruitless polls <= 2"
     #[kani::proof]
     #[kani::unwind(18)]
     #[kani::stub(std::sync::atomic::Atomic::<usize>::fetch_add, a_faa)]
